@@ -432,7 +432,7 @@ def run(ctx: Ctx):
     spaces.append(("cutting stock exhaustive, default options", ex))
 
     n_rand = 700 if ctx.quick else 6000
-    spaces.append(("cutting stock seeded random (ordered sizes, duplicates, 1..4 pieces, width 2..12, demands 0..6), default options",
+    spaces.append(("cutting stock seeded random (ordered sizes, duplicates, 1..4 pieces, width 2..12, demands 0..6 (targeted shapes up to 9)), default options",
                    [rand_cs(rng) for _ in range(n_rand)]))
 
     n_opt = 500 if ctx.quick else 4000
@@ -468,6 +468,18 @@ def run(ctx: Ctx):
         cus.append(inst)
     spaces.append(("custom pricing over explicit column sets (seeded random; exact pricers best/first/last)", cus))
 
+    # second random block with its own generator (added after the first measurements; the blocks above are unchanged):
+    # 3-4 piece types at larger widths, where the LP value is an integer up to float noise or just above one
+    rng2 = random.Random(ctx.seed + 17)
+    n_r2 = 5000 if ctx.quick else 30000
+    r2 = []
+    for _ in range(n_r2):
+        n = rng2.randint(3, 4)
+        W = rng2.randint(5, 14)
+        r2.append({"mode": "cs", "sizes": [rng2.randint(1, W) for _ in range(n)], "width": W,
+                   "demands": [rng2.randint(0, 4) for _ in range(n)]})
+    spaces.append(("cutting stock seeded random II (3-4 pieces, width 5..14, sizes 1..width, demands 0..4), default options", r2))
+
     all_items = []
     for si, (_, insts) in enumerate(spaces):
         for inst in insts:
@@ -488,6 +500,7 @@ def run(ctx: Ctx):
     slow = []
     n_eval = 0
     viol_by_ob: dict[str, int] = {}
+    allv: list = []
     for chunk_res in results:
         for (si, case, opt, kind, status, usable, secs, bad, what, inexact) in chunk_res:
             n_eval += 1
@@ -528,7 +541,7 @@ def run(ctx: Ctx):
             for obn, detail in bad:
                 viol_by_ob[obn] = viol_by_ob.get(obn, 0) + 1
                 p["by_ob"][obn] = p["by_ob"].get(obn, 0) + 1
-                ctx.violation(obn, pub, detail)
+                allv.append((obn, pub, detail))
     # lemma block
     pr_items, glen = gen_pricing(ctx.quick)
     pr_res = pmap(pricing_worker, chunks(pr_items, 4), chunksize=1)
@@ -544,11 +557,12 @@ def run(ctx: Ctx):
                 pr_bad += 1
             for obn, detail in bad:
                 viol_by_ob[obn] = viol_by_ob.get(obn, 0) + 1
-                ctx.violation(obn, case, detail)
+                allv.append((obn, case, detail))
     lemma_scope = dict(exhaustive=True, widths="1..6" if ctx.quick else "1..10",
                        pieces="1..3 (ordered size tuples for 1-2 pieces, multisets for 3), sizes 1..min(8,width)",
                        dual_grid=[f"{a}/{b}" for a, b in (DUAL_GRID_QUICK if ctx.quick else DUAL_GRID_FULL)], evaluations=pr_eval,
                        with_improving_pattern=pr_improving, violating_evaluations=pr_bad)
+    report_violations(ctx, allv)
     slow.sort(key=lambda t: -t[0])
     notes["slowest_calls"] = [{"seconds": round(s, 2), "case": c} for s, c in slow[:5]]
     notes["calls_over_2s"] = len(slow)
@@ -583,6 +597,31 @@ def run(ctx: Ctx):
     ]
     ctx.trusted += ["oracles/cutting_stock.py (BFS over residual demand vectors with witness plan; cross-checked in every run against an iterative-deepening search on seeded instances)"]
     oracle_selfcheck(ctx, rng, 200 if ctx.quick else 1500)
+
+
+def case_size(case):
+    if case.get("mode") == "cs":
+        return (0, len(case["sizes"]), case["width"], sum(case["demands"]), len(case.get("opts") or {}))
+    if case.get("mode") == "custom":
+        return (1, len(case["demands"]), len(case["columns"]) + len(case["initial"]), sum(case["demands"]), len(case.get("opts") or {}))
+    return (2, len(case["sizes"]), case["width"], 0, 0)
+
+
+def report_violations(ctx, allv):
+    """The driver prints / writes replays for the first violations only: hand them over so that every violated
+    obligation comes first with its two smallest cases (default-option obligations before budget-limited ones)."""
+    groups: dict[str, list] = {}
+    for v in allv:
+        groups.setdefault(v[0], []).append(v)
+    for g in groups.values():
+        g.sort(key=lambda v: (case_size(v[1]), repr(v[1])))
+    names = sorted(groups, key=lambda n: ("@limited" in n, n))
+    for n in names:
+        for v in groups[n][:2]:
+            ctx.violation(*v)
+    for n in names:
+        for v in groups[n][2:]:
+            ctx.violation(*v)
 
 
 def worker_tagged(chunk):
